@@ -804,3 +804,56 @@ def term_interval(t, ranges):
         return None
     return None
 
+
+# ---------------------------------------------------------------------------
+# text a Move writer produces for a move of a given kind (shared by C12 / C18 / C20)
+
+MOVE_FIELDS = {"Normal": ("piece", "start", "end", "captured_piece"), "Promotion": ("owner", "start", "end", "new_piece", "captured_piece"),
+               "EnPassant": ("owner", "start_col", "end_col"), "CastlingShort": ("owner",), "CastlingLong": ("owner",)}
+
+
+def eval_move_text(nf, variant, env, D):
+    """Text of a string-building summary `nf` of a `&self` method of Move for a move of kind `variant`, or None.  `self` is a value
+    of that variant whose fields are free variables; `env` states assumptions on `self.<field>` terms (a field itself, or calls on
+    it such as Position::col(self.start), Option::is_some(self.captured_piece)).  Works whatever way the writer takes the move
+    apart: `match self`, `if let`, nested patterns (`captured_piece: Some(v)`), helpers returning parts of it."""
+    MV = "chess::move_struct::Move::"
+    SELF_ = ("var", "self")
+    fv = {f: ("var", "@" + f) for f in MOVE_FIELDS[variant]}
+
+    def tr(t):
+        if not isinstance(t, tuple) or isinstance(t, hir.PK):
+            return t
+        if len(t) == 3 and t[0] == "field" and t[1] == SELF_ and t[2] in fv:
+            return fv[t[2]]
+        return tuple(tr(x) if isinstance(x, tuple) else x for x in t)
+    env2 = {tr(k): tr(v) for k, v in env.items()}
+    vals = dict(fv)
+    for f in list(fv):
+        if fv[f] in env2:
+            vals[f] = env2.pop(fv[f])
+    if "captured_piece" in fv:
+        k = ("call", "std::option::Option::<T>::is_some", (fv["captured_piece"],))
+        if k in env2 and vals["captured_piece"] == fv["captured_piece"]:
+            vals["captured_piece"] = ("ctor", "std::prelude::v1::Some", (("var", "@captured"),)) if env2[k] == ("lit", True) else \
+                ("variant", "std::prelude::v1::None")
+    a = dict(env2)
+    a[SELF_] = ("struct", MV + variant, tuple(sorted(vals.items())))
+    ev = chess_evalcalls(None, {})
+    v = hir.fold(nf, a, D, None, ev)
+    for _ in range(2):
+        if isinstance(v, tuple) and v and v[0] == "str" and all(p_[0] in ("ch", "s") and p_[1][0] == "lit" for p_ in v[1:]):
+            break
+        v = hir.fold(v, a, D, None, ev)
+    if isinstance(v, tuple) and v and v[0] == "lit" and isinstance(v[1], str):
+        return v[1]         # a whole literal text (`String::from("O-O")`)
+    if not (isinstance(v, tuple) and v and v[0] == "str"):
+        return None
+    out = ""
+    for p_ in v[1:]:
+        if p_[0] in ("ch", "s") and p_[1][0] == "lit" and isinstance(p_[1][1], str):
+            out += p_[1][1]
+        else:
+            return None
+    return out
+
